@@ -8,7 +8,7 @@ use serde_json::{json, Value};
 use crate::parser::AST;
 
 use super::gen::{GenCfg, StrRegime};
-use super::proc::{run_child, scratch_dir, Child, ChildResult, Exit, In, Out, Profile, ShimCfg};
+use super::proc::{run_child, run_live_pipeline, scratch_dir, Child, ChildResult, Exit, In, Out, Profile, ShimCfg};
 use super::report::{Evidence, Violation};
 use super::util::{catch, digest_bytes, digest_of, first_difference, first_line, par_map, Rng};
 use super::vm;
@@ -100,6 +100,8 @@ pub struct Tuple {
     /// Some((stage, plan)): an earlier invocation of that very stage in the same directory was killed (SIGKILL) in the middle
     /// of writing its output; whatever it left behind is the durable state the real invocation starts from
     pub crash_before: Option<(usize, String)>,
+    /// the pipeline runs as a live shell pipeline (all stages alive at once on kernel pipes) instead of stage by stage
+    pub live: bool,
 }
 
 pub const INPUT_NAMES: &[&str] = &["prog.fml", "prog.fml", "job.1.fml", "my prog.fml", "prog.v2.final.fml", "прог.fml", "noext", "a.b", "UPPER.FML", "x.json.fml", "trailing.dot..fml"];
@@ -109,7 +111,7 @@ impl Tuple {
         json!({"format": self.format.ext(), "parse_flag": self.parse_flag, "parse_stdin": self.parse_stdin, "parse_out": self.parse_out.name(),
                "compile_flag": self.compile_flag, "compile_stdin": self.compile_stdin, "compile_out": self.compile_out.name(), "exec_stdin": self.exec_stdin,
                "profile": self.profile.name(), "plans": self.plans, "wrapper": self.wrapper, "input_name": self.input_name, "stale": self.stale, "hash_seed": self.hash_seed, "hard_stage": self.hard_stage, "wrapper_stages": self.wrapper_stages, "guest_stdout_fault": self.guest_stdout_fault,
-               "crash_before": self.crash_before.as_ref().map(|(s, p)| json!([s, p]))})
+               "crash_before": self.crash_before.as_ref().map(|(s, p)| json!([s, p])), "live": self.live})
     }
     pub fn from_json(v: &Value) -> Option<Tuple> {
         let plans = v.get("plans")?.as_array()?;
@@ -132,6 +134,7 @@ impl Tuple {
             wrapper_stages: v.get("wrapper_stages").and_then(|x| x.as_bool()).unwrap_or(false),
             guest_stdout_fault: v.get("guest_stdout_fault").and_then(|x| x.as_str()).unwrap_or("").to_string(),
             crash_before: v.get("crash_before").and_then(|x| x.as_array()).and_then(|a| Some((a.get(0)?.as_u64()? as usize, a.get(1)?.as_str()?.to_string()))),
+            live: v.get("live").and_then(|x| x.as_bool()).unwrap_or(false),
         })
     }
 
@@ -173,13 +176,14 @@ impl Tuple {
             wrapper_stages: false,
             guest_stdout_fault: String::new(),
             crash_before: None,
+            live: false,
         }
     }
 
     pub fn plain(format: Fmt, profile: Profile) -> Tuple {
         Tuple { format, parse_flag: Some(format.ext().to_string()), parse_stdin: false, parse_out: Chan::OFile, compile_flag: None, compile_stdin: false,
                 compile_out: Chan::OFile, exec_stdin: false, profile, plans: [String::new(), String::new(), String::new()], wrapper: false,
-                input_name: "prog.fml".into(), stale: false, hash_seed: 11, hard_stage: None, wrapper_stages: false, guest_stdout_fault: String::new(), crash_before: None }
+                input_name: "prog.fml".into(), stale: false, hash_seed: 11, hard_stage: None, wrapper_stages: false, guest_stdout_fault: String::new(), crash_before: None, live: false }
     }
 }
 
@@ -584,6 +588,24 @@ pub fn run_direct(source: &str, profile: Profile, seed: u64) -> ChildResult {
     run_direct_with(source, profile, seed, "")
 }
 
+/// `fml parse x.fml --format F | fml compile --input-format F | fml execute` with all three stages alive at once on kernel
+/// pipes, each under its own transient plan. Returns the three results (parse, compile, execute).
+pub fn run_live(source: &str, t: &Tuple) -> Vec<ChildResult> {
+    let dir = scratch_dir();
+    std::fs::write(dir.join("prog.fml"), source).unwrap();
+    let f = t.parse_flag.clone().unwrap_or_else(|| t.format.ext().to_string());
+    let mut a = if t.parse_stdin { Child::new(t.profile, &["parse", "--format", &f]) } else { Child::new(t.profile, &["parse", "prog.fml", "--format", &f]) };
+    if t.parse_stdin { a.stdin = In::File("prog.fml".into()); }
+    let mut b = Child::new(t.profile, &["compile", "--input-format", &f]);
+    let mut c = Child::new(t.profile, &["execute"]);
+    a.shim = stage_shim(t, 0, source.len());
+    b.shim = stage_shim(t, 1, source.len());
+    c.shim = stage_shim(t, 2, source.len());
+    let r = run_live_pipeline(&dir, &[a, b, c]);
+    let _ = std::fs::remove_dir_all(&dir);
+    r
+}
+
 pub fn run_direct_with(source: &str, profile: Profile, seed: u64, plan: &str) -> ChildResult {
     let dir = scratch_dir();
     std::fs::write(dir.join("prog.fml"), source).unwrap();
@@ -787,6 +809,14 @@ pub fn judge_hard(prep: &Prepared, t: &Tuple, direct: &ChildResult, st: &Staged)
 pub fn replay_case(case: &Case) -> Result<Option<Verdict>, String> {
     let source = case.spec.source().ok_or("no source")?;
     let prep = match prepare(&source) { Some(p) => p, None => return Ok(None) };
+    if case.tuple.live {
+        let direct = run_direct(&source, case.tuple.profile, 17);
+        let r = run_live(&source, &case.tuple);
+        if r.iter().any(|x| x.exit == Exit::Timeout) { return Ok(None); }
+        let bad = !r[0].exit.is_success() || !r[1].exit.is_success() || r[2].exit != direct.exit || r[2].stdout != direct.stdout;
+        return Ok(if bad { Some(Verdict { oracle: "O8:live_pipeline_differs_from_run".into(), detail: format!("exits {} {} {}; {} bytes of stdout vs {} from run", r[0].exit.show(), r[1].exit.show(), r[2].exit.show(), r[2].stdout.len(), direct.stdout.len()),
+            signature: json!({"engine": ENGINE, "oracle": "O8", "format": case.tuple.format.ext(), "stage": "live", "ast_depth": prep.depth, "json_nesting": prep.json_nesting, "lisp_nesting": prep.lisp_nesting}) }) } else { None });
+    }
     let direct = run_direct_with(&source, case.tuple.profile, case.tuple.hash_seed, &case.tuple.guest_stdout_fault);
     let st = run_staged(&source, &case.tuple);
     if case.tuple.hard_stage.is_some() { return Ok(judge_hard(&prep, &case.tuple, &direct, &st)); }
@@ -988,6 +1018,36 @@ fn exercise(name: &str, spec: &ProgSpec, rng: &mut Rng, n_tuples: usize, n_hard:
         }
         if let Some(v) = judge_hard(&prep, &t, direct, &st) {
             out.violations.push((Case { spec: spec.clone(), tuple: t.clone() }, v));
+        }
+    }
+    // ---- a live shell pipeline: all three stages alive at once on kernel pipes -----------------------------------------------
+    if !name.starts_with("boundary:") {
+        let f = *rng.pick(&Fmt::ALL);
+        let t = Tuple::random(rng, f);
+        if !directs.iter().any(|(p, _)| *p == t.profile) {
+            directs.push((t.profile, run_direct(&source, t.profile, 17)));
+            out.children += 1;
+        }
+        let direct = directs.iter().find(|(p, _)| *p == t.profile).unwrap().1.clone();
+        let r = run_live(&source, &t);
+        out.children += 3;
+        out.evaluations += 1;
+        out.counters.push(("live_pipelines_all_stages_alive_at_once".into(), 1));
+        let timeout = r.iter().any(|x| x.exit == Exit::Timeout) || direct.exit == Exit::Timeout;
+        // a recorded finding (deserializer recursion limit) makes the compile stage refuse: that is the sequential pipelines' report
+        let refused_as_known = !r[1].exit.is_success() && (prep.json_nesting >= 128 || prep.lisp_nesting >= 128 || prep.depth >= 60);
+        if !timeout && !refused_as_known {
+            let bad = if !r[0].exit.is_success() { Some(format!("parse stage ended with {}", r[0].exit.show())) }
+                else if !r[1].exit.is_success() { Some(format!("compile stage ended with {}: {}", r[1].exit.show(), first_line(&r[1].stderr_masked(200), 120))) }
+                else if r[2].exit != direct.exit || r[2].stdout != direct.stdout { Some(format!("execute: {} with {} bytes of stdout; run: {} with {} bytes", r[2].exit.show(), r[2].stdout.len(), direct.exit.show(), direct.stdout.len())) }
+                else { None };
+            if let Some(d) = bad {
+                let mut tt = Tuple::plain(t.format, t.profile);
+                tt.plans = t.plans.clone(); tt.parse_flag = t.parse_flag.clone(); tt.parse_stdin = t.parse_stdin; tt.hash_seed = t.hash_seed;
+                tt.live = true;
+                out.violations.push((Case { spec: spec.clone(), tuple: tt }, Verdict { oracle: "O8:live_pipeline_differs_from_run".into(), detail: format!("`fml parse | fml compile | fml execute` ({}) with all stages alive at once: {}", t.format.ext(), d),
+                    signature: json!({"engine": ENGINE, "oracle": "O8", "format": t.format.ext(), "stage": "live", "ast_depth": prep.depth, "json_nesting": prep.json_nesting, "lisp_nesting": prep.lisp_nesting}) }));
+            }
         }
     }
     // ---- the guest's stdout fails at one of its own writes, under run and under execute alike -----------------------
